@@ -309,6 +309,8 @@ func runWorker(def *CheckDef, tier string, seed uint64, w, nw, startAfter int, g
 		atomic.StoreInt64(&cur, int64(idx))
 		fmt.Fprintf(jf, "case %d\n", idx)
 		ctx.curCase = idx
+		setOptSpelling(idx)
+		ctx.Count(fmt.Sprintf("cases_by_option_spelling:%d", idx%3), 1)
 		atomic.StoreInt64(&ctx.caseStart, time.Now().UnixNano())
 		tc := time.Now()
 		runCaseRecovered(def, ctx, idx)
